@@ -110,6 +110,9 @@ def run(ctx):
     for cf in sorted((_Path(__file__).resolve().parents[2] / "corpus" / "C01").glob("*.json")):
         c = _json.loads(cf.read_text())
         ctx.count()
+        st0, detail0, c10, _ = check_text(c["text"])
+        if st0 not in (None, "rejected") or (st0 == "rejected" and not c.get("may_be_rejected")):
+            ctx.property_failure({"input": c["text"], "canonical": c10, "corpus": cf.name}, f"{st0}: {detail0} (corpus {cf.name})")
         for surface, x, c1, c2 in tool_surfaces(ctx, [c["text"]]):
             ctx.property_failure({"surface": surface, "input": x, "first": c1, "second": c2, "corpus": cf.name},
                                  f"{surface}: canonical text refused or not stable (corpus {cf.name})")
@@ -124,6 +127,13 @@ def run(ctx):
     if not ctx.quick() and len(seqs) > 300000:
         seqs = seqs[:27930] + ctx.rng.sample(seqs[27930:], 270000)
     inputs += [("tokens", s) for s in seqs]
+    # section markers in every head shape (nameless, numeric / suffixed / negative / float ids, numeric names, annotations)
+    for sid in ["1", "2b", "0", "-2", "1.50", "1e3", "007", "CTX", "9z"]:
+        for name in ["", sid, "NAME", "5", "2b", "x"]:
+            for ann in ["", "[note]", "[a,b]"]:
+                for body in ["", "  A::1\n", "  // c\n  A::1\n"]:
+                    inputs.append(("section-heads", f"\u00a7{sid}::{name}{ann}\n{body}"))
+                    inputs.append(("section-heads", f"===D===\nP:\n  \u00a7{sid}::{name}{ann}\n{'  ' + body.replace(chr(10), chr(10) + '  ').rstrip(' ') if body else ''}===END===\n"))
     canon_texts = []
     accepted = 0
     for kind, x in inputs:
